@@ -290,6 +290,29 @@ func pendingLimit(r *rep.Report, linear bool) {
 		b, _ := ioutil.ReadAll(resp.Body)
 		return resp.StatusCode, strings.TrimSpace(string(b))
 	}
+	// requests that are turned down before they reach any location (a body that is not JSON, a uri that
+	// is not a string) are over once they are answered: they do not count against the limit afterwards
+	{
+		cl := &http.Client{Timeout: 30 * time.Second, Transport: &http.Transport{DisableKeepAlives: true}}
+		var answers []string
+		for i, body := range []string{`{"location":"pl0","fact":{"likes":}}`, `{"uri":5,"location":"pl0"}`, `{"location":"pl0","fact":{"likes":}}`, `{"uri":{"a":1},"location":"pl0"}`} {
+			resp, err := cl.Post(base+"/api/loc/facts/add", "application/json", strings.NewReader(body))
+			if err != nil {
+				answers = append(answers, fmt.Sprintf("%d: transport error %v", i, err))
+				continue
+			}
+			ioutil.ReadAll(resp.Body)
+			resp.Body.Close()
+			answers = append(answers, fmt.Sprintf("%d: %d", i, resp.StatusCode))
+		}
+		time.Sleep(50 * time.Millisecond)
+		st, body := post(cl, "/api/loc/facts/add", map[string]interface{}{"location": "pl0", "id": "after-rejects", "fact": map[string]interface{}{"n": 0.0}})
+		r.Case(true, fmt.Sprint("pending-limit-rejects", linear))
+		if h.Pending() != 0 || st != 200 {
+			r.Violate("", "requests that were turned down with 400 still count as pending: the limit fills up with nothing pending", rep.J{"linear": linear, "max_pending": 2, "answers_of_the_rejected_requests": answers, "pending_afterwards": h.Pending(), "next_good_request": fmt.Sprintf("%d %s", st, body)})
+			return
+		}
+	}
 	const clients = 6
 	type outcome struct {
 		acked   map[string]bool
@@ -374,9 +397,79 @@ func pendingLimit(r *rep.Report, linear bool) {
 	}
 }
 
+// boltGrowth: an engine on Bolt storage whose locations are loaded for every request (TTL never),
+// eight clients on eight locations writing facts large enough that the database file grows (and
+// is mapped again) many times while other locations load.  Nobody waits for ever.
+func boltGrowth(r *rep.Report, e rep.Env) {
+	for _, linear := range []bool{false, true} {
+		path := fmt.Sprintf("%s/c11-growth-%v.db", e.Out, linear)
+		os.Remove(path)
+		conf := sys.ExampleConfig()
+		conf.Storage = "bolt"
+		conf.StorageConfig = path
+		conf.UnindexedState = linear
+		cont := sys.ExampleSystemControl()
+		cont.LocationTTL = sys.Never
+		cont.DefaultLocControl = &core.Control{MaxFacts: 100000, Verbosity: core.NOTHING, NoTiming: true}
+		s, err := sys.NewSystem(drv.Ctx(), *conf, *cont, cronner.New(true))
+		if err != nil {
+			r.Violate("", "cannot build a bolt-backed system: "+err.Error(), nil)
+			continue
+		}
+		const clients, per = 8, 30
+		big := strings.Repeat("x", 24000)
+		acked := make([]int, clients)
+		bad := make([]string, clients)
+		var wg sync.WaitGroup
+		gate := make(chan struct{})
+		for c := 0; c < clients; c++ {
+			wg.Add(1)
+			go func(c int) {
+				defer wg.Done()
+				loc := fmt.Sprintf("g%d", c)
+				<-gate
+				for i := 0; i < per; i++ {
+					if _, err := s.AddFact(drv.Ctx(), loc, fmt.Sprintf("f%d", i), fmt.Sprintf(`{"n":%d,"pad":%q}`, i, big)); err != nil {
+						bad[c] = "AddFact: " + err.Error()
+						return
+					}
+					acked[c]++
+					if _, err := s.GetFact(drv.Ctx(), loc, fmt.Sprintf("f%d", i)); err != nil {
+						bad[c] = "GetFact of an acknowledged fact: " + err.Error()
+						return
+					}
+				}
+			}(c)
+		}
+		done := make(chan struct{})
+		go func() { close(gate); wg.Wait(); close(done) }()
+		select {
+		case <-done:
+		case <-time.After(120 * time.Second):
+			r.Violate("", "clients of different locations on Bolt storage did not finish within 120 s while the database file grew (deadlock?)", rep.J{"linear": linear, "acknowledged_per_client": acked})
+			return
+		}
+		for c := 0; c < clients; c++ {
+			r.Case(true, fmt.Sprint("bolt-growth", linear, c))
+			n, _ := s.GetSize(drv.Ctx(), fmt.Sprintf("g%d", c))
+			if bad[c] != "" || n != per {
+				r.Violate("", "a client of its own location on Bolt storage got a wrong answer while other locations wrote", rep.J{"linear": linear, "client": c, "problem": bad[c], "size": n, "want_size": per})
+			}
+		}
+		r.Count("bolt_growth_requests", clients*per*2)
+		s.Close(drv.Ctx())
+		os.Remove(path)
+	}
+}
+
 func main() {
 	e := rep.GetEnv()
 	r := rep.New(e)
+	if e.Stage == "bolt" {
+		boltGrowth(r, e)
+		r.Write()
+		os.Exit(0)
+	}
 	if e.Batch == 0 {
 		r.Journal(rep.J{"scenario": "pending-limit"})
 		pendingLimit(r, false)
